@@ -706,6 +706,7 @@ package webrtc
 //@ modifies nothing
 //@ func newICECandidateFromICE
 //@ trusted
+//@ ghost convFail += ite(err != nil, 1, 0)
 //@ modifies nothing
 //@ func atomicLoadICEGathererState
 //@ props C24
@@ -741,7 +742,7 @@ package webrtc
 //@ func (*ICEGatherer).flushCandidates
 //@ props C24
 //@ requires g != nil && g.log != nil
-//@ requires ghost(cands) < 1<<62
+//@ requires ghost(cands) < 1<<62 && ghost(convFail) < 1<<62
 //@ requires ghost(nilCands) <= 1 && ((ghost(nilCands) == 1) == (g.state == ICEGathererStateComplete && !specPoolActive(g)))
 //@ requires !specPoolActive(g) ==> len(g.candidatePool) == 0
 //@ atcall localfn onLocalCandidateHandler assert ghost(nilCands) == 0
@@ -751,9 +752,9 @@ package webrtc
 //@ ensures ghost(nilCands) <= 1
 //@ ensures (ghost(nilCands) == 1) == (g.state == ICEGathererStateComplete && !specPoolActive(g))
 //@ ensures !specPoolActive(g)
-//@ ensures ghost(cands) <= old(ghost(cands)) + uint64(old(len(g.candidatePool)))
+//@ ensures ghost(cands) + ghost(convFail) == old(ghost(cands)) + old(ghost(convFail)) + uint64(old(len(g.candidatePool)))
 //@ loop 0 invariant ghost(nilCands) == old(ghost(nilCands))
-//@ loop 0 invariant ghost(cands) <= old(ghost(cands)) + uint64(rangeindex + 1)
+//@ loop 0 invariant ghost(cands) + ghost(convFail) == old(ghost(cands)) + old(ghost(convFail)) + uint64(rangeindex + 1)
 //@ loop 0 invariant rangeindex < len(candidates) && len(candidates) == old(len(g.candidatePool))
 //@ loop 0 invariant g.state == old(g.state)
 //@ loop 0 invariant g.candidatePool == nil && g.iceCandidatePoolSize == 0
@@ -768,7 +769,7 @@ package webrtc
 //@ requires g.state != ICEGathererStateComplete
 //@ requires ghost(nilCands) <= 1 && ((ghost(nilCands) == 1) == (g.state == ICEGathererStateComplete && !specPoolActive(g)))
 //@ requires !specPoolActive(g) ==> len(g.candidatePool) == 0
-//@ requires ghost(cands) < 1<<62
+//@ requires ghost(cands) < 1<<62 && ghost(convFail) < 1<<62
 //@ atcall localfn onLocalCandidateHandler assert ghost(nilCands) == 0
 //@ ensures ghost(nilCands) <= 1
 //@ ensures (ghost(nilCands) == 1) == (g.state == ICEGathererStateComplete && !specPoolActive(g))
@@ -777,4 +778,4 @@ package webrtc
 //@ ensures candidate == nil ==> g.state == ICEGathererStateComplete && ghost(cands) == old(ghost(cands))
 //@ ensures candidate != nil ==> g.state == old(g.state) && ghost(nilCands) == old(ghost(nilCands))
 //@ ensures candidate != nil && old(specPoolActive(g)) ==> len(g.candidatePool) == old(len(g.candidatePool)) + 1 && ghost(cands) == old(ghost(cands))
-//@ ensures candidate != nil && !old(specPoolActive(g)) ==> ghost(cands) <= old(ghost(cands)) + 1
+//@ ensures candidate != nil && !old(specPoolActive(g)) ==> ghost(cands) + ghost(convFail) == old(ghost(cands)) + old(ghost(convFail)) + 1
